@@ -14,6 +14,7 @@ import (
 // See DESIGN.md section 4 (C20).
 
 type c20Op struct {
+	Empty  bool   `json:"names_are_empty_strings,omitempty"`
 	Others bool   `json:"also_names_files_that_are_not_cache_entries,omitempty"`
 	Kind   string `json:"kind"`               // "from", "clean", "cleanall"
 	Sp     int    `json:"spelling,omitempty"` // which spelling of the name(s) this call uses
@@ -255,11 +256,13 @@ func c20Gen(tp *Tapes) *c20Spec {
 					}
 					// now and then the call (also) names files that are not cache entries of their
 					// own: what a cached template includes or extends, and a name never asked for
-					switch g.Draw(6) {
+					switch g.Draw(8) {
 					case 0:
 						op.Others, op.Names = true, nil
 					case 1:
 						op.Others = true
+					case 2:
+						op.Empty, op.Names = true, nil // every name given is the empty string
 					}
 				case 7:
 					op.Kind = "cleanall"
@@ -639,6 +642,9 @@ func (c20Checker) Run(tp *Tapes, opt RunOpt) *Outcome {
 							var ns []string
 							for _, n := range op.Names {
 								ns = append(ns, sp.spelling(op.Set, n, op.Sp))
+							}
+							if op.Empty {
+								ns = append(ns, "", "")
 							}
 							if op.Others {
 								ns = append(ns, "never-asked-for.tpl", "")
